@@ -28,6 +28,14 @@ HARNESS = {
 LEVEL = 'model_checking'
 
 
+def level_of(pid):
+    try:
+        from vt import manifest
+        return manifest.CLAIMED.get(pid, {}).get('category', LEVEL)
+    except Exception:
+        return LEVEL
+
+
 def _run_json(cmd, marker, timeout, env=None):
     try:
         p = subprocess.run(cmd, cwd=VERIF, capture_output=True, text=True, timeout=timeout, env=env)
@@ -285,7 +293,7 @@ def write_evidence(pid, tier, seed, results, violations, harness_errors, known_l
                        'replayed without them before being reported')
     n_confirmed = sum(1 for r in results if r['status'] == 'confirmed')
     ev = dict(
-        property_id=pid, tier=tier, seed=seed, level=LEVEL, wall_s=round(wall, 1),
+        property_id=pid, tier=tier, seed=seed, level=level_of(pid), wall_s=round(wall, 1),
         violations=len(violations),
         coverage=dict(
             evaluations=max(paths, 1),
